@@ -1,7 +1,10 @@
 package main
 
 import (
+	"math"
 	"math/big"
+	"strconv"
+	"strings"
 
 	"github.com/cockroachdb/apd/v3"
 )
@@ -113,6 +116,38 @@ func init() {
 				nd = g.R.between(1, p)
 			}
 			x := finDec(false, g.R.digits(nd), 0)
+			if i%6 == 5 && p <= 10 {
+				// hard cases: the exact result lies a few thousandths of a unit off a representable number (off a tie for the
+				// nearest modes), so a one-sided bias of the working arithmetic is enough to land on the wrong side.
+				// The argument is built with float64 arithmetic (17 digits: far finer than the offset); no expected value is used.
+				N := float64(g.R.between(1, 999999999))
+				for N >= math.Pow(10, float64(p)) {
+					N = math.Floor(N / 10)
+				}
+				if N < math.Pow(10, float64(p-1)) && p > 1 {
+					N += math.Pow(10, float64(p-1))
+				}
+				t := []float64{0.004, -0.004, 0.02, -0.02, 0.504, 0.496}[g.R.Intn(6)]
+				sc := float64(g.R.between(-3, 3))
+				target := (N + t) * math.Pow(10, sc-float64(p-1)) // a p-digit number with 1 <= |.| < 10, scaled by 10^sc, plus t units
+				var arg float64
+				op := []string{"exp", "ln", "log10"}[g.R.Intn(3)]
+				switch op {
+				case "exp":
+					arg = math.Log(target)
+					if g.R.bool() && target > 1 { // negative arguments: e^-a = 1/target is not special, keep both signs in play
+						arg = -arg
+					}
+				case "ln":
+					arg = math.Exp(target)
+				default:
+					arg = math.Pow(10, target)
+				}
+				if d, ok := decOfFloat(arg); ok {
+					g.emit(mkA(op, c, d, d, 0, "", fresh), op+"/hard")
+					continue
+				}
+			}
 			switch g.R.Intn(4) {
 			case 0: // exp
 				x.N = g.R.bool()
@@ -201,4 +236,23 @@ func init() {
 			}
 		}
 	}
+}
+
+// decOfFloat: the 17-significant-digit decimal expansion of a finite float64 as a case operand.
+func decOfFloat(f float64) (Dec, bool) {
+	if f == 0 || math.IsInf(f, 0) || math.IsNaN(f) {
+		return Dec{}, false
+	}
+	s := strconv.FormatFloat(math.Abs(f), 'e', 16, 64) // d.dddddddddddddddde+XX
+	mant, exps, _ := strings.Cut(s, "e")
+	e, err := strconv.Atoi(exps)
+	if err != nil {
+		return Dec{}, false
+	}
+	digs := strings.Replace(mant, ".", "", 1)
+	b, ok := new(big.Int).SetString(digs, 10)
+	if !ok {
+		return Dec{}, false
+	}
+	return finDec(f < 0, b, e-(len(digs)-1)), true
 }
